@@ -41,6 +41,8 @@ def main():
                 res.update({"exit": q.returncode, "wall_s": round(time.time() - t0, 1),
                             "lines": [l[:300] for l in lines if "FAILED-OBLIGATION" in l or "VIOLATION" in l or "UNDECIDED" in l][:8],
                             "reported_again": q.returncode == 1})
+                um = re.match(r"C\d+/[VKS]/([A-Za-z_0-9\-]+)", obl)
+                res["failing_lines_of_the_recorded_unit"] = [l[:200] for l in res["lines"] if "FAILED-OBLIGATION" in l and um and um.group(1) in l]
             json.dump(res, open(os.path.join(VERIF, "regress", c + ".json"), "w"), indent=1)
             print(prop, c, "reverse-applies" if res["reverse_applies"] else "REVERSE-DOES-NOT-APPLY",
                   "exit", res.get("exit"), "REPORTED" if res.get("reported_again") else "not-reported", flush=True)
